@@ -220,7 +220,7 @@ example : (1 ≤ f32.mant ∧ 2 ≤ f32.exp) ∧ (1 ≤ f64.mant ∧ 2 ≤ f64.e
       `constuint`, `localconst`)
     * `parse_expr_as_u32` — `[[rssl::bind_group(n)]]` (`bindgroup`)
     * `add_stage` — `numthreads` arguments (`numthreads`); `extract_uint32`, `extract_float` — pipeline
-      properties (`pipelineprop`; float properties are not exercised)
+      and static sampler properties (`pipelineprop`, `maxanisotropy`, `writemask`; `minlod`, `maxlod`)
     * `parse_statement` — case labels (`case`); `parse_statement_attribute` — `[unroll(n)]` (`unroll`)
     * `parse_and_evaluate_constant_expression` — template value arguments and their defaults (`template`) -/
 def reviewedSites : List (String × String × String × String × String × Bool) := [
@@ -367,7 +367,7 @@ theorem template_argument_not_converted :
 
 /-- **Float-valued properties (`MinLOD`, `MaxLOD`)**: an accepted value is the constant converted to `float` by the
     HLSL rules (32-bit kinds; 64-bit integer constants do not arise from source). -/
-theorem lod_property_value_partial (e : Expr) (hwf : wfE e = true) (b : Nat) (h : lodSite (eval e) = .lod b) :
+theorem lod_property_value (e : Expr) (hwf : wfE e = true) (b : Nat) (h : lodSite (eval e) = .lod b) :
     ∃ v, RsslVerif.Spec.HlslConst.eval e = some v ∧
       (v.kind ≠ .Int64 ∧ v.kind ≠ .UInt64 → RsslVerif.Spec.HlslConst.castScalar .Float32 v = some (.float32 b)) := by
   cases hev : eval e with
@@ -381,16 +381,32 @@ theorem lod_property_value_partial (e : Expr) (hwf : wfE e = true) (b : Nat) (h 
       cases h
       exact ⟨v, (eval_agrees e hwf v hev).1, fun h64 => toF32_sound v h64 b ht⟩
 
-/-- what is missing from `lod_property_value_partial` is completeness, and it is *false* on the pinned source
-    (known finding, replayed as `C13.pos minlod 0.5` and `C13.pos minlod (int)-1`): an untyped float literal and
-    a negative `int` are refused although they convert to `float`. -/
-theorem lod_property_refuses_valid_values (bits : Nat) (v : Int) (hv : v < 0) :
-    lodSite (.ok (.floatLit bits)) = .notConstant ∧ lodSite (.ok (.int32 v)) = .notConstant ∧
-    (RsslVerif.Spec.HlslConst.castScalar .Float32 (.floatLit bits)).isSome = true ∧
-    (RsslVerif.Spec.HlslConst.castScalar .Float32 (.int32 v)).isSome = true := by
-  have a := toF32_refuses_float_literal bits
-  have b := toF32_refuses_negative_int v hv
-  simp [lodSite, a.1, b.1, a.2, b.2]
+/-- ... and complete (since `Constant::to_f32` has an arm for untyped float literals and no sign guard on `int`; the
+    former witnesses `MinLOD = 0.5` and `MinLOD = (int)-1` are corpus lines): every constant the HLSL rules convert to
+    `float` — `bool`, an untyped integer or float literal, `int` of either sign, `uint`, `half`, `float`, `double` — is
+    accepted with exactly the converted value. -/
+theorem lod_property_complete (e : Expr) (hwf : wfE e = true) (v : Constant) (b : Nat) (hev : eval e = .ok v)
+    (hc : RsslVerif.Spec.HlslConst.castScalar .Float32 v = some (.float32 b)) :
+    lodSite (eval e) = .lod b := by
+  rw [hev]
+  simp [lodSite, toF32_complete v (eval_agrees e hwf v hev).2 b hc]
+
+/-- a refusal of a constant is justified: it has no conversion to `float` (an enum, a string) -/
+theorem lod_property_rejections (e : Expr) (hwf : wfE e = true) (v : Constant) (hev : eval e = .ok v)
+    (h : lodSite (eval e) = .notConstant) :
+    RsslVerif.Spec.HlslConst.castScalar .Float32 v = none := by
+  rw [hev] at h
+  simp only [lodSite] at h
+  cases ht : toF32 v with
+  | none => exact toF32_none v (eval_agrees e hwf v hev).2 ht
+  | some b => simp [ht] at h
+
+/-- non-vacuity: `MinLOD = 0.5` (untyped float literal) is `0x3f000000`, `MinLOD = (int)-1` is `-1.0f`,
+    `MinLOD = 16777217` rounds to even, `MinLOD = E0C` (an enum) is refused -/
+example : lodSite (eval (.lit (.floatLit 0x3fe0000000000000))) = .lod 0x3f000000 ∧
+    lodSite (eval (.cast (.scalar .Int32) (.lit (.intLit (-1))))) = .lod 0xbf800000 ∧
+    lodSite (eval (.lit (.intLit 16777217))) = .lod 0x4b800000 ∧
+    lodSite (eval (.enumValue 0 (.int32 5))) = .notConstant := by decide
 
 /-! ## enum definitions -/
 
